@@ -11,7 +11,7 @@ package setec
 //@ pred storeInv(s *Store) { s != nil && allocated(s) && s.active.m != nil && s.active.f != nil && s.active.w != nil && allocated(s.active.m) && allocated(s.active.f) && allocated(s.active.w) &&
 //@      s.timeNow != nil && s.logf != nil &&
 //@      (forall n string :: entryOK(s, n)) && (forall n string, k string :: (has(s.active.m, n) && has(s.active.m, k) && n != k) ==> s.active.m[n] != s.active.m[k]) && (forall n string :: has(s.active.f, n) ==> (has(s.active.m, n) && s.active.f[n] != nil)) && (forall n string :: has(s.active.w, n) ==> has(s.active.f, n)) && chansOK(s) }
-//@ pred chansOK(s *Store) { forall n string, j int :: (has(s.active.w, n) && 0 <= j && j < len(s.active.w[n])) ==> (s.active.w[n][j].ready != nil && allocated(s.active.w[n][j].ready) && chcap(s.active.w[n][j].ready) == 1 && chlen(s.active.w[n][j].ready) >= 0 && chlen(s.active.w[n][j].ready) <= 1) }
+//@ pred chansOK(s *Store) { (forall n string :: has(s.active.w, n) ==> allocated(s.active.w[n])) && forall n string, j int :: (has(s.active.w, n) && 0 <= j && j < len(s.active.w[n])) ==> (s.active.w[n][j].ready != nil && allocated(s.active.w[n][j].ready) && chcap(s.active.w[n][j].ready) == 1 && chlen(s.active.w[n][j].ready) >= 0 && chlen(s.active.w[n][j].ready) <= 1) }
 //@ pred sameEntries(s *Store) { forall n string :: has(s.active.m, n) == old(has(s.active.m, n)) && (has(s.active.m, n) ==> (s.active.m[n] == old(s.active.m[n]) && s.active.m[n].Secret == old(s.active.m[n].Secret))) }
 //@ pred handlesKept(s *Store) { forall n string :: old(has(s.active.f, n)) ==> (has(s.active.f, n) && s.active.f[n] == old(s.active.f[n])) }
 
@@ -335,9 +335,10 @@ package setec
 //@ func (*Store).lookupWatcher(s, ctx, name) (w, err)
 //@   requires storeInv(s) && !s.active.Mutex && ctx != nil && s.client != nil
 //@   ensures [C16 watcher.gate] (!old(has(s.active.m, name)) && !s.allowLookup) ==> (err != nil && net == old(net) && sameEntries(s))
-//@   ensures [C15 watcher.registered] err == nil ==> (w.ready != nil && fresh(w.ready) && chcap(w.ready) == 1 && chlen(w.ready) == 0 && has(s.active.w, name) && has(s.active.f, name) && w.Secret != nil &&
+//@   ensures [C15 watcher.registered] err == nil ==> (w.ready != nil && fresh(w.ready) && isSlot(w.ready) && chcap(w.ready) == 1 && chlen(w.ready) == 0 && has(s.active.w, name) && has(s.active.f, name) && w.Secret != nil &&
 //@        len(s.active.w[name]) == old(len(s.active.w[name])) + 1 && s.active.w[name][len(s.active.w[name]) - 1].ready == w.ready)
 //@   ensures [C12 watcher.unlocked] !s.active.Mutex
+//@   ensures [C12 watcher.inv] storeInv(s)
 
 // ---- file client construction ---------------------------------------------------------------
 //@ func NewFileClient(path) (fc, err)
@@ -372,3 +373,9 @@ package setec
 //@   ensures [C15 updater.keep-on-error] (old(chlen(u.w.ready)) == 1 && lastBuilderErr != nil) ==> (u.value == old(u.value) && v == old(u.value) && u.err == lastBuilderErr && closes == old(closes))
 //@   ensures [C15 updater.replace-on-success] (old(chlen(u.w.ready)) == 1 && lastBuilderErr == nil) ==> (u.err == nil && v == u.value && closes <= old(closes) + 1)
 //@   ensures [C15 updater.unlocked] !u.mu
+//@ func NewUpdater(ctx, s, name, newValue) (u, err)
+//@   requires storeInv(s) && !s.active.Mutex && ctx != nil && s.client != nil && newValue != nil
+//@   ensures [C15 newupdater.ready-for-get] err == nil ==> (u != nil && !u.mu && u.newValue != nil && u.logf != nil && u.w.Secret != nil && u.w.ready != nil && isSlot(u.w.ready) && chcap(u.w.ready) == 1 && chlen(u.w.ready) == 0)
+//@   ensures [C15 newupdater.initial-value-built-once] err == nil ==> (builderCalls == old(builderCalls) + 1 && lastBuilderErr == nil && lastBuiltFrom == lastHandleValue)
+//@   ensures [C16 newupdater.gate] (!old(has(s.active.m, name)) && !s.allowLookup) ==> (err != nil && net == old(net) && builderCalls == old(builderCalls))
+//@   ensures [C12 newupdater.unlocked] !s.active.Mutex && storeInv(s)
